@@ -273,11 +273,11 @@ _n("C01", "Theorems for every well-formed history incl. crashes: an accepted add
 _n("C02", "Theorems: an accepted add emits exactly one unmodified frame per listener, each once, nobody else (C02_fanout_exact, C02_exactly_once, C02_no_other); who enters/leaves the listener set in every kind of step, sweeps and binds never (C02_listeners_*), ghost subscriber characterisation over histories (C02_subscribers'). The model is object-free (DESIGN 9.2.1): that the code's registry behaves like it is established by correspondence + oracle with bind/sweep/restart orders, not by these theorems.", _TIE)
 _n("C03", "Theorems: a nameplate row's mailbox never changes while the row (id) exists, ids are never reused, all claimed answers within one incarnation agree (C03_same_mailbox'), rows with different ids have different mailboxes at all times of a history under fresh generated ids (C03_distinct', C03_distinct_answers'); repeated claim answered claimed with the same id _partial (K-crowded-rejoin; counterexample theorem). Code side: correspondence + oracle over all claimed answers.", _TIE)
 _n("C04", "Theorems about _find_available_nameplate_id's model for every set of names, every random choice and draw sequence (free, canonical decimal, shortest available, exhaustion iff), against translator-regenerated constants; C07_claim_added/C12_activity_stamps_allocate give the claim held when answered; oracle on implementation dumps incl. filled 1-9/1-99/1-999 states with non-decimal names.", _TIE)
-_n("C05", "Correspondence + oracle with ghost first-two sides per mailbox incarnation (later sides get exactly ack+crowded, never a message or subscription; K-crowded-rejoin recognised by signature). Theorems in progress.", _TIE, _PENDING)
+_n("C05", "Theorems: a side outside the first two (or any side once there are more than two rows) gets exactly ack+crowded from open/close/claim, no message, no handle, identically on every retry; side rows only grow and are deleted only with the mailbox; first2 is frozen; every subscriber and every message recipient of an incarnation is a first-two side over whole histories (C05_ever_subscribed_reach, C05_message_to_first2); at most two sides are answered claimed per nameplate row (C05_nameplate_two_reach); a refused attempt changes nothing of the others (C05_keep_partial); K-crowded-rejoin counterexample theorem. Code side: correspondence + oracle with ghost first-two sides.", _TIE)
 _n("C06", "Two-run oracle on the implementation: history vs history with the other apps' connections removed, per-app view of frames and rows (nameplate sides joined to names), incl. empty-string ids; correspondence. Theorems in progress.", _TIE,
    "two-run (metamorphic) oracle on the implementation + differential correspondence with Lean model (theorems in progress)")
 _n("C07", "Theorems for every step from any invariant state, crashes included: a claim is added only by its side's claim/allocate, removed (nameplate surviving) only by its side's release, a nameplate is deleted only by a last release / a close deleting its mailbox / a sweep (C07_claims_change_only_by_owner and corollaries), listed iff held, release total and idempotent, reclaimed changes nothing, reusable afterwards. Code side: correspondence + oracle on the claims relation around every step.", _TIE)
-_n("C08", "Correspondence + oracle evaluating close's post-condition on implementation dumps (closed answered, survivors untouched, everything of a deleted mailbox gone, every other row unchanged). Theorems in progress.", _TIE, _PENDING)
+_n("C08", "Theorems: exact output and post-state of every non-rejected close (C08_close_spec_reach): closed answered; another side open -> only the closer's row changes; else exactly the mailbox, its messages, sides, nameplates and their sides are gone and every other row of every table is unchanged (C08_close_frame), remaining listeners dropped; a mailbox with an open side survives every non-sweep op except that side's own last close, crashes included (C08_alive_while_open); re-close of a gone mailbox leaves the db equal; re-close of a surviving one _partial (K-close-touch, K-crowded-rejoin; counterexample theorems). Code side: correspondence + oracle on implementation dumps.", _TIE)
 _n("C09", "Theorem C09_frames_synced_all: in every well-formed history, crashes included, for every configuration, every frame is emitted with both databases committed. Code side: an independent second reader of the database FILES is compared with the server's own view at every sendMessage.", _TIE + " Durability of a SQLite commit itself (fsync/journal) is trusted.")
 _n("C10", "Theorems: the global invariant GSys.Reach.ginv (uniqueness of every key, every foreign key, >= 1 side per nameplate, connection records consistent, nothing uncommitted) holds in every state of every well-formed history with crashes at any commit boundary of any command or sweep; every snapshot a kill can leave satisfies CInv (C10_crash_state_wf); sweeps after crashes never fail (C10_sweeps_total), store empties (C13_quiesce_reach). Code side: every commit boundary of crash-profile histories is crashed and restarted through the real start-up path; two-run oracle for re-sent commands after a crash (K-close-touch, K-crowded-rejoin by signature).", _TIE + " SQLite's atomic commit is trusted. Re-send convergence is checked by the two-run oracle, not yet a theorem.",
    "Lean 4 proof (global invariant at every commit point) + fault enumeration over commit boundaries with correspondence")
